@@ -140,7 +140,66 @@ def count_or_crash(root, tmp, action, crash_at, partial):
     return (int(data) if data else None), os.waitstatus_to_exitcode(status)
 
 
+def observe_long_lived(case):
+    """One long-lived writer process (one Directory / Registry object kept over the whole history) performs the actions one
+    by one; between the actions this (other) process reads the registry with a fresh reader."""
+    import multiprocessing
+
+    root = tempfile.mkdtemp(prefix='c05l_', dir='/var/tmp')
+    tmp = tempfile.mkdtemp(prefix='c05lp_', dir='/var/tmp')
+    ctx = multiprocessing.get_context('fork')
+    parent, child = ctx.Pipe()
+
+    def writer(conn):
+        directory = asset.Directory(posix.Registry(path=root))
+        registry = posix.Registry(path=root)
+        while True:
+            action = conn.recv()
+            if action is None:
+                return
+            code = 0
+            try:
+                if action[0] == 'publish':
+                    directory.get(PROJECT).put(fake_package(tmp, action[1], f'package {action[1]}'.encode()))
+                elif action[0] == 'dump':
+                    registry.write(asset.Project.Key(PROJECT), asset.Release.Key(action[1]), sid(action[2]), f'state {action[2]}'.encode())
+                else:
+                    rel = directory.get(PROJECT).get(action[1])
+                    rel.put(asset.Tag(training=asset.Tag.Training(None, None), states=[sid(n) for n in action[2]]))
+            except forml.AnyError:
+                code = 3
+            except BaseException:  # pylint: disable=broad-except
+                code = 4
+            conn.send(code)
+
+    proc = ctx.Process(target=writer, args=(child,), daemon=True)
+    proc.start()
+    try:
+        steps = []
+        for action in case['history']:
+            before = reader_view(root)
+            parent.send(action)
+            if not parent.poll(120):
+                return {'error': f'writer did not finish {action}'}
+            code = parent.recv()
+            steps.append({'before': before, 'after': reader_view(root), 'ok': code == 0, 'refused': code == 3, 'crashes': [], 'complete': None})
+        parent.send(None)
+        import json
+
+        return json.loads(json.dumps({'steps': steps}))
+    except Exception as err:  # pylint: disable=broad-except
+        return {'error': f'{type(err).__name__}: {err}'}
+    finally:
+        proc.join(5)
+        if proc.is_alive():
+            proc.kill()
+        shutil.rmtree(root, ignore_errors=True)
+        shutil.rmtree(tmp, ignore_errors=True)
+
+
 def observe(case):
+    if case.get('long_lived'):
+        return observe_long_lived(case)
     root = tempfile.mkdtemp(prefix='c05_', dir='/var/tmp')
     tmp = tempfile.mkdtemp(prefix='c05p_', dir='/var/tmp')
     try:
